@@ -129,9 +129,10 @@ theorem Add.comp {f g : V → V} (hf : Add f) (hg : Add g) : Add (fun x => f (g 
 
 /-! ### 1. the environment -/
 
-/-- **the maps of the environment are additive on vectors of equal length** (the uninterpreted leaf classes —
-dense einsum blocks, Toeplitz, observation matrices, opaque operators — are linear maps; they are homogeneous by
-`Env.hom`).  On the input side `vadd x y` is `zipWith (· + ·) x y` (equal lengths, `vadd_eq_zipWith`); on the output
+/-- **the maps of the environment are additive on vectors of equal length** (the uninterpreted leaves —
+dense einsum blocks, Toeplitz operators with batched bands, observation matrices, opaque operators — are linear
+maps; they are homogeneous by `Env.hom`; Toeplitz leaves with an un-batched band are interpreted by the kernel,
+additive by `toepLeaf_vadd`).  On the input side `vadd x y` is `zipWith (· + ·) x y` (equal lengths, `vadd_eq_zipWith`); on the output
 side `vadd` is used because nothing is assumed of the lengths `E.f u` returns (when `E.f u x` and `E.f u y` have
 the same length — e.g. for an environment of matrices, `matEnv_add` — it is `zipWith (· + ·)` again). -/
 structure EnvAdd (E : Env) : Prop where
@@ -318,6 +319,21 @@ theorem polTMap_vadd (k : StokesKind) (n : Nat) : Add (polTMap k n) := fun y y' 
   simp only [getD_vadd, polT_sample_add, map_add_eq_vadd]
   exact flatten_map_vadd _ _ _ (by simp)
 
+/-! #### Toeplitz -/
+
+theorem rowOf_vadd (l : Nat) (x y : V) (b j : Nat) :
+    rowOf l (vadd x y) b j = rowOf l x b j + rowOf l y b j := getD_vadd x y _
+
+/-- the Toeplitz kernel of a leaf is additive, for every pair of input lists -/
+theorem toepLeaf_vadd (K : Nat) (vals : Tensor Rat) (li lo : LeafS) : Add (toepLeaf K vals li lo) := fun x y => by
+  unfold toepLeaf
+  simp only []
+  rw [← map_add_eq_vadd]
+  apply List.map_congr_left
+  intro q _
+  rw [← toep_add]
+  exact toep_congr _ _ _ _ _ _ fun j _ => rowOf_vadd _ x y _ j
+
 /-! #### the leaves -/
 
 theorem vsmul_add (q : Rat) : Add (vsmul q) := fun x y => vsmul_vadd q x y
@@ -352,6 +368,10 @@ theorem leafDen_vadd (E : Env) (hE : EnvAdd E) (u : Nat) (c : LeafCls) (p : Para
     split
     · exact polMap_vadd _ _ xi yi
     · rfl
+  case toeplitz =>
+    split
+    · exact perLeaf_vadd _ (toepLeaf_vadd _ _) _ _ xi yi
+    · exact hE.add u xi yi hl
   all_goals exact hE.add u xi yi hl
 
 theorem leafDenT_vadd (E : Env) (hE : EnvAdd E) (u : Nat) (c : LeafCls) (p : Params) : Add (leafDenT E u c p) :=
@@ -383,6 +403,10 @@ theorem leafDenT_vadd (E : Env) (hE : EnvAdd E) (u : Nat) (c : LeafCls) (p : Par
     split
     · exact polTMap_vadd _ _ xi yi
     · rfl
+  case toeplitz =>
+    split
+    · exact perLeaf_vadd _ (toepLeaf_vadd _ _) _ _ xi yi
+    · exact hE.addT u xi yi hl
   all_goals exact hE.addT u xi yi hl
 
 /-- the statement of the task: on vectors of the declared input size, with the entrywise sum -/
